@@ -534,6 +534,15 @@ class C20(PropBase):
                 add("symbol_urls", mk("F:test.dmp", "M" + spec, modes, brief, pretty, 9, 0, rng.choice(["-", "g"])))
         for modes in ("-", "j", "c"):
             add("symbol_urls", mk("F:test.dmp", "U2d", modes, 0, 0, 9, 0))
+        # Q. --dump stream by stream: synthesized dumps in which each of the stream kinds print_minidump_dump has a printer for is
+        #    absent / present / present but unreadable (drawn); the tool's output is cut into the texts of the library's individual
+        #    printers and the sequence compared with the model of print_minidump_dump (regenerated from main.rs)
+        for k in range(60 if not thorough else 600):
+            seed_k = rng.below(1 << 30)
+            add("dump_streams", mk("DS:%d" % seed_k, "n", "D", k % 2, 0, 9, 0, rng.choice(["-", "-", "g"])))
+        for k in range(6 if not thorough else 40):
+            add("dump_streams", mk("DS:%d" % rng.below(1 << 30), "n", "D", rng.below(2), 0, 9, 0, "g", lim=rng.choice([100, 700, 3000])))
+            add("dump_streams", mk("DS:%d" % rng.below(1 << 30), "n", "D", rng.below(2), 0, 9, 0, stdout=rng.choice(["u", "p", "p300"])))
         # N. --evil-json reaches ProcessorOptions::evil_json
         for modes, pretty in (("j", 0), ("j", 1), ("c", 0), ("-", 0)):
             for inp in ("F:test.dmp", "F:linux-mini.dmp"):
@@ -904,6 +913,9 @@ class C20(PropBase):
                     return "the --cyborg file is not the library's %s rendering (equals: %s)" % (sec, "+".join(sorted(cy[2])) or "none")
             elif cy is not None:
                 return "a --cyborg file exists although --cyborg was not given"
+            bad = self.dump_streams_oracle(a)
+            if bad:
+                return bad
             return self.side_effects(c, a)
         # status 1
         if lib == "O" and not io_trouble(c):
@@ -925,6 +937,29 @@ class C20(PropBase):
         if stderr == 0 and not ((c["log"] == "g" or has_prestate(c["log"])) and logf):
             return "status 1 without a diagnostic on standard error" + (" (--verbose=off)" if c["verbose"] == "off" else "")
         return self.side_effects(c, a)
+
+    def dump_streams_oracle(self, a):
+        """--dump "dumps the raw contents of the minidump": the report consists of the header and of the text the library's
+        printer gives for each stream that can be read - each exactly once, nothing for a stream that is absent, nothing that
+        is no printer's text (the one fixed sentence for an unreadable Crashpad stream is the tool's own)"""
+        dst, dseq = a.get("dst", "-"), a.get("dseq", "-")
+        if dst in ("-", "X") or dseq in ("-", "X"):
+            return None
+        parts = dseq.split(",")
+        if parts[-1].startswith("?"):
+            return "--dump: the last %s bytes of the report (after %s) are not the text of any printer of the library" % (parts[-1][1:], ",".join(parts[:-1][-3:]))
+        if parts[0] != "H":
+            return "--dump: the report does not begin with the header (begins with %s)" % parts[0]
+        for tok in dst.split(","):
+            name, st = tok.split("=")
+            n = sum(1 for x in parts if x[2:] == name and x[:2] in ("S:", "R:"))
+            if st == "0" and n != 1:
+                return "--dump: the stream %s can be read but its text appears %d times in the report" % (name, n)
+            if st != "0" and n != 0:
+                return "--dump: the stream %s cannot be read (status %s) but the report has a section for it" % (name, st)
+        if parts.count("H") != 1:
+            return "--dump: the header appears %d times" % parts.count("H")
+        return None
 
     def side_effects(self, c, a):
         """what a run leaves behind apart from the reports: the log file, the symbol cache"""
@@ -984,6 +1019,43 @@ class C20(PropBase):
                         vio.append({"case": fo[0][0], "profile": prof, "found_input": True,
                                     "what": "--output-file received %s but standard output receives %s for the same options" % (
                                         fo[0][2]["out"][:40], so[0][2]["stdout"][:40])})
+        # --dump, printer by printer: the model of print_minidump_dump (Gen/C20DumpProg.v, regenerated from main.rs) is asked for the
+        # sequence of printer calls on a minidump whose streams answer as the harness OBSERVED (dst), and that is compared with the
+        # sequence the tool's report was cut into (dseq)
+        dq = {}
+        for prof, answers in ctx["impl"].items():
+            for i, case in enumerate(cases):
+                ans = answers[i]
+                if ans is None or ans.startswith("P;;") or " dst=" not in ans:
+                    continue
+                a = parse_answer(ans)
+                if a.get("dst", "-") in ("-", "X") or a.get("dseq", "-") in ("-", "X") or a["exit"] != "0":
+                    continue
+                prim = parse_sink(a["stdout"] if parse_case(case)["out"] == "-" else a["out"])
+                if not (isinstance(prim, tuple) and ({"D", "DB"} & prim[2])):
+                    continue          # an incomplete report (reader gone): the oracle judges the prefix
+                dq.setdefault(a["dst"], []).append((case, prof, a["dseq"]))
+        dump_compared = dump_mism = 0
+        if dq and model is not None:
+            exe = os.path.join(vlib.ALT_DIR if getattr(vlib, "ALT", False) else vlib.CACHE, "ocaml", "c20", "model")
+            keys = sorted(dq)
+            pred, dead = vlib.run_lines([exe], ["DUMPSEQ " + k.replace(",", " ") for k in keys], timeout=300)
+            if dead:
+                vio.append({"case": None, "profile": "debug", "found_input": False,
+                            "what": "the model driver died on a DUMPSEQ query (%s)" % (dead[0][1],)})
+            for k, p in zip(keys, pred):
+                if p is None:
+                    continue
+                for case, prof, dseq in dq[k]:
+                    dump_compared += 1
+                    if p.strip() != dseq:
+                        dump_mism += 1
+                        vio.append({"case": case, "profile": prof, "found_input": True,
+                                    "what": "correspondence (--dump): the model of print_minidump_dump predicts the printer calls %s, the "
+                                            "tool's report consists of %s (streams: %s)" % (p.strip(), dseq, k), "model": p.strip(), "impl": dseq})
+        ctx["info"]["dump_sequences_compared"] = dump_compared
+        ctx["info"]["dump_sequence_mismatches"] = dump_mism
+        ctx["info"]["dump_stream_views"] = len(dq)
         ctx["info"]["traces_validated_against_impl"] = compared
         ctx["info"]["correspondence_mismatches"] = mism
         ctx["info"]["process_runs"] = sum(1 for answers in ctx["impl"].values() for x in answers if x)
